@@ -430,3 +430,165 @@ Definition step11 (q : q11) (a : action) : option q11 :=
   end.
 Definition init11 : q11 :=
   {| out11 := []; done11 := []; ph11_ := P11Wait; starter11 := None; src11 := ScheduledTask; upg11 := false; must_reboot11 := false |}.
+
+(* ------------------------------------------------------------------ C10 *)
+(* Every update outcome is reported exactly once: after the attempts of a check succeed, the path taken
+   (unparseable body / plan refused / policy deferred or denied / install attempted with per-app results)
+   determines a list of report obligations; each obligation is discharged by exactly one request carrying
+   exactly the expected events for exactly the expected apps, or, when the request cannot be delivered, by
+   one lost-event metric per event; no other request carries events, nothing is retried, and the check's
+   result is announced only when nothing is owed.  (Session / request ids: step6ids, run-time.) *)
+Definition code3 := (N * N * option N)%type.
+Definition ev_code (e : event) : code3 :=
+  (etype_code (ev_type e), eresult_code (ev_result e), match ev_err e with Some x => Some (eerr_code x) | None => None end).
+Definition code3_eqb (a b : code3) : bool :=
+  match a, b with (t, r, e), (t', r', e') =>
+    (t =? t')%N && (r =? r')%N && match e, e' with Some x, Some y => (x =? y)%N | None, None => true | _, _ => false end end.
+
+Record xev := { x_id : bytes; x_code : code3; x_prev : option bytes; x_next : list (option bytes) }.
+Inductive ob10 := OReport (exp : list xev) (lost : list code3) | OLost (lost : list code3).
+
+Definition wev := (N * N * option N * option bytes * option bytes)%type.
+Definition wev_ok (x : xev) (w : wev) : bool :=
+  match w with (t, r, e, prev, next) =>
+    code3_eqb (t, r, e) (x_code x) && obytes_eqb prev (x_prev x) && existsb (obytes_eqb next) (x_next x) end.
+Fixpoint evs_match (xs : list xev) (ws : list wev) : bool :=
+  match xs, ws with
+  | [], [] => true
+  | x :: xs', w :: ws' => wev_ok x w && evs_match xs' ws'
+  | _, _ => false
+  end.
+Fixpoint nodupb (l : list bytes) : bool :=
+  match l with [] => true | x :: r => negb (existsb (bytes_eqb x) r) && nodupb r end.
+
+(* the request carries, app by app, exactly the expected events and nothing else *)
+Definition report_ok (exp : list xev) (w : wire) : bool :=
+  let apps := ws_apps (w_sum w) in
+  nodupb (map wa_id apps)
+  && forallb (fun a => match wa_uc a, wa_ping a with None, None => true | _, _ => false end
+                       && evs_match (filter (fun x => bytes_eqb (x_id x) (wa_id a)) exp) (wa_events a)) apps
+  && forallb (fun x => existsb (fun a => bytes_eqb (x_id x) (wa_id a)) apps) exp.
+
+Definition c_parse_error : code3 := ev_code (event_error EEParseResponse).
+Definition c_plan_error : code3 := ev_code (event_error EEConstructInstallPlan).
+Definition c_denied : code3 := ev_code (event_error EEDeniedByPolicy).
+Definition c_deferred : code3 := (3%N, 9%N, None).
+Definition c_started : code3 := ev_code (event_success ETUpdateDownloadStarted).
+Definition c_complete : code3 := ev_code (event_success ETUpdateComplete).
+Definition c_result (r : ares) : code3 :=
+  match r with
+  | RInstalled => ev_code (event_success ETUpdateDownloadFinished)
+  | RDeferred => c_deferred
+  | RFailed => ev_code (event_error EEInstallation)
+  end.
+
+Definition idvers := list (bytes * bytes).
+Definition ver_of (apps : idvers) (id : bytes) : option bytes :=
+  match find (fun x => bytes_eqb (fst x) id) apps with Some (_, v) => Some v | None => None end.
+(* the manifest versions the response offers for this app id *)
+Definition offers (d : doc) (id : bytes) : list (option bytes) :=
+  map manifest_version (filter (fun r => uc_ok r && bytes_eqb (r_id r) id) (d_apps d)).
+
+Definition exp_all (c : code3) (apps : idvers) : list xev :=
+  map (fun x => {| x_id := fst x; x_code := c; x_prev := Some (snd x); x_next := [None] |}) apps.
+Definition exp_offered (c : code3) (d : doc) (apps : idvers) : list xev :=
+  flat_map (fun x => match offers d (fst x) with
+                     | [] => []
+                     | l => [{| x_id := fst x; x_code := c; x_prev := Some (snd x); x_next := l |}] end) apps.
+Definition exp_results (d : doc) (rs : list ares) (apps : idvers) : list xev :=
+  flat_map (fun pr => match ver_of apps (r_id (fst pr)) with
+                      | Some v => [{| x_id := r_id (fst pr); x_code := c_result (snd pr); x_prev := Some v;
+                                      x_next := [manifest_version (fst pr)] |}]
+                      | None => [] end) (combine (filter uc_ok (d_apps d)) rs).
+Definition exp_complete (d : doc) (rs : list ares) (apps : idvers) : list xev :=
+  flat_map (fun pr => match snd pr, ver_of apps (r_id (fst pr)) with
+                      | RInstalled, Some v => [{| x_id := r_id (fst pr); x_code := c_complete; x_prev := Some v;
+                                                  x_next := offers d (r_id (fst pr)) |}]
+                      | _, _ => [] end) (combine (filter uc_ok (d_apps d)) rs).
+
+Inductive ph10 := X0 | XAtt | XBody | XOffer (d : doc) | XPlan (d : doc) | XInstall (d : doc) | XDone.
+Record q10 := { apps10 : idvers; cup10 : bool; ph10_ : ph10; todo10 : list ob10 }.
+Definition q10_set (q : q10) (p : ph10) (t : list ob10) : q10 :=
+  {| apps10 := apps10 q; cup10 := cup10 q; ph10_ := p; todo10 := t |}.
+Definition delivered (cup : bool) (o : http_outcome) : bool :=
+  match o with HResp st _ au _ => (negb cup || au) && is_2xx st | HErr _ => false end.
+Definition optional10 (o : ob10) : bool := match o with OReport [] [] => true | _ => false end.
+Definition after_lost (l : list code3) (rest : list ob10) : list ob10 :=
+  match l with [] => rest | _ => OLost l :: rest end.
+Definition no_offers (d : doc) : bool := match filter uc_ok (d_apps d) with [] => true | _ => false end.
+
+Definition step10 (q : q10) (a : action) : option q10 :=
+  match a with
+  | AEvent (EvState (CheckingForUpdates _)) =>
+      match ph10_ q, todo10 q with X0, [] => Some (q10_set q XAtt []) | _, _ => None end
+  | AMetric (MRequestsPerCheck _ ok) =>
+      match ph10_ q, todo10 q with XAtt, [] => Some (q10_set q (if ok then XBody else XDone) []) | _, _ => None end
+  | AEvent (EvState ErrorCheckingForUpdate) =>
+      match ph10_ q, todo10 q with
+      | XAtt, [] => Some q
+      | XBody, [] => Some (q10_set q XDone [OReport (exp_all c_parse_error (apps10 q)) [c_parse_error]])
+      | _, _ => None
+      end
+  | AEvent (EvServerResponse d) =>
+      match ph10_ q, todo10 q with
+      | XBody, [] => Some (q10_set q (if no_offers d then XDone else XOffer d) [])
+      | _, _ => None
+      end
+  | AInstaller (ICreatePlan _ _ _ _) (IPlan pl) =>
+      match ph10_ q, todo10 q with
+      | XOffer d, [] =>
+          match pl with
+          | None => Some (q10_set q XDone [OReport (exp_offered c_plan_error d (apps10 q)) [c_plan_error]])
+          | Some _ => Some (q10_set q (XPlan d) [])
+          end
+      | _, _ => None
+      end
+  | APolicy (QCanStart _) (PUDecision dec) =>
+      match ph10_ q, todo10 q with
+      | XPlan d, [] =>
+          match dec with
+          | UDeferred => Some (q10_set q XDone [OReport (exp_offered c_deferred d (apps10 q)) [c_deferred]])
+          | UDenied => Some (q10_set q XDone [OReport (exp_offered c_denied d (apps10 q)) [c_denied]])
+          | UOk => Some (q10_set q (XInstall d) [OReport (exp_offered c_started d (apps10 q)) [c_started]])
+          end
+      | _, _ => None
+      end
+  | AInstaller (IPerform _) (IPerformed pa) =>
+      match ph10_ q, todo10 q with
+      | XInstall d, [] =>
+          let er := exp_results d (pa_results pa) (apps10 q) in
+          let ec := exp_complete d (pa_results pa) (apps10 q) in
+          Some (q10_set q XDone (OReport er (map x_code er)
+                                 :: match ec with [] => [] | _ => [OReport ec [c_complete]] end))
+      | _, _ => None
+      end
+  | AHttp w o =>
+      match todo10 q with
+      | OReport exp lost :: rest =>
+          if report_ok exp w
+          then Some (q10_set q (ph10_ q) (if delivered (cup10 q) o then rest else after_lost lost rest))
+          else None
+      | OLost _ :: _ => None
+      | [] =>
+          match ph10_ q with
+          | X0 | XAtt => match total_events w with O => Some q | S _ => None end
+          | _ => None
+          end
+      end
+  | AMetric (MOmahaEventLost ev) =>
+      match todo10 q with
+      | OReport _ (c :: l) :: rest | OLost (c :: l) :: rest =>
+          if code3_eqb (ev_code ev) c then Some (q10_set q (ph10_ q) (after_lost l rest)) else None
+      | _ => None
+      end
+  | AEvent (EvResult _) =>
+      match ph10_ q with
+      | XDone => if forallb optional10 (todo10 q) then Some (q10_set q X0 []) else None
+      | _ => None
+      end
+  | _ => Some q
+  end.
+
+Definition init10 (cup : option N) (apps : list app) : q10 :=
+  {| apps10 := map (fun a => (a_id a, Version.print (a_ver a))) apps;
+     cup10 := match cup with Some _ => true | None => false end; ph10_ := X0; todo10 := [] |}.
